@@ -10,7 +10,7 @@ for n in $NAMES; do
   git -C /repo worktree add -q --detach $W HEAD
   # some demos locate the tree (tests/ data, scratch dirs) relative to their own path <worktree>/_seed/<name>/demo.py: run a copy from there
   # (second-round seeds were written as <prop>_1/_2 and are stored as <prop>_3/_4: both directory names are provided)
-  i=${n##*_}; orig=${n%_*}_$((i>2 ? i-2 : i))
+  i=${n##*_}; orig=${n%_*}_$(( (i-1) % 2 + 1 ))
   mkdir -p $W/_seed/$n $W/_seed/$orig; cp $d/demo.py $W/_seed/$n/demo.py; cp $d/demo.py $W/_seed/$orig/demo.py
   (cd $W && PYTHONPATH=$W HOME=/verif/.home /venv/bin/python $W/_seed/$orig/demo.py >/dev/null 2>&1); clean=$?
   (cd $W && git apply $d/patch.diff); applied=$?
